@@ -133,7 +133,7 @@ func c13History(c *vc.Ctx, idx int) {
 		powers = powers[:genVals]
 	}
 	sort.Slice(powers, func(i, j int) bool { return powers[i] > powers[j] })
-	cfg := lockCfg{Label: "c13", NVals: genVals, Powers: powers, MaxVals: K, Blocks: c.Pick(60, 150), Protect0: true, Adversarial: idx%3 == 2,
+	cfg := lockCfg{Label: "c13", NVals: genVals, Powers: powers, MaxVals: K, Blocks: c.Pick(60, 150), Protect0: true, Adversarial: idx%3 == 2, HugeWeights: idx%4 == 3,
 		W: lockWeights{Create: 22, Lock: 45, Unlock: 30, Claim: 5, Grant: 5, Weight: 12, Threshold: 10, Absent: 12, Evidence: 6, DustLock: 25, BigUnlock: 15}}
 	h, err := newLockHist(c, cfg, idx)
 	if err != nil {
